@@ -127,6 +127,8 @@ def havoc_value(st, name, v):
         return VFloat(fresh("h_" + name, F64))
     if S.is_strlike(v):
         return VStr(fresh("h_" + name, STR))
+    if isinstance(v, VOpq) and isinstance(v.t, z3.ExprRef) and v.t.sort() == INT:
+        return VOpq(v.tag, fresh("h_" + name, INT))   # another element of the same opaque family
     raise Unsupported(f"cannot havoc loop-carried variable {name} = {v!r}")
 
 
